@@ -15,7 +15,10 @@ CAPS = ("and who already tests with unusual and algebraically structured inputs,
         "deserialised objects (through slices, readers with short reads, serde_json::Value, snapshots embedded in larger "
         "documents, damaged snapshots), several threads and several processes, every environment variable whose name occurs in the "
         "compiled library set, documented panics (set_rounds(0)) that the caller contains before going on, trait implementations "
-        "that did not exist before (probed at compile time), thousands of consecutive seedings, timers that count in steps ")
+        "that did not exist before (probed at compile time), thousands of consecutive seedings, timers that count in steps, a timer "
+        "callback that itself uses another generator (same-thread re-entrancy), a REAL clock (std Instant/SystemTime) that jumps by "
+        "milliseconds to hours between readings, signed-integer formats such as TOML, non-output calls (timer_stats, test_timer, "
+        "set_rounds, clone, ==, serialisation) mixed into every history ")
 for f in sorted(glob.glob(f"/tmp/seed/C??-{prev}.full.txt")):
     pid = os.path.basename(f)[:3]
     s = open(f).read().replace(f"{pid}-{prev}", f"{pid}-{new}")
